@@ -167,8 +167,9 @@ def run(eng, ctx):
         from .util import atomize
 
         for conj in e.dnf:
-            vals = [atomize((c, pol)) for c, pol in conj if c[0] == "cmp" and c[2] in sizes and c[3] == ("const", 0)]
-            wrong = [a for a, v in vals if (a[1] == "==" and v) or (a[1] in ("<",) and v)]
+            vals = [atomize((c, pol)) for c, pol in conj if c[0] == "cmp" and c[2] in sizes and is_const(c[3])]
+            # the only admissible test of the size on the way to the body read is "size != 0" (or "size > 0")
+            wrong = [a for a, v in vals if not ((a[1] == "==" and a[3] == ("const", 0) and not v) or (a[1] == ">" and a[3] == ("const", 0) and v) or (a[1] == "<" and a[3] == ("const", 1) and not v))]
             ctx.check(not wrong, "C12.D3", dq, f"{norm(e.node)[:40]} guard", expected="issued for non-zero sizes", found=guard_text(conj)[:100], **eng.loc(f, e.node))
 
     # ---------------- D4 carry-in
